@@ -37,11 +37,11 @@ M = [
  ('C08', 'src/skip.rs', '            // Fast path, once skipping is done.\n', '            // Fast path, once the skipping is done.\n', 0),   # benign: comment
  ('C02', CB, 'let newpos = (s.rpos + n) % s.capacity();', 'let newpos = (n + s.rpos) % s.capacity();', 0),                       # benign: commuted
  # units added later
- ('C08', 'src/zero_crossing.rs', '            self.last_sign = sign;\n            self.counter += 1;', '            self.counter += 1;', 1),
+ ('C08', 'src/zero_crossing.rs', '            self.last_sign = sign;\n            self.counter += 1;', '            self.counter += 1;', 2),   # a DIFFERENT deterministic rule: C08 still holds; the pinned clause fails, the stand-in sees no chunk dependence: undecided
  ('C15', 'src/zero_crossing.rs', 'std::cmp::min(o.len(), clock.len())', 'o.len()', 1),
- ('C08', 'src/symbol_sync.rs', '                self.last_sym_boundary_pos = self.stream_pos;\n                self.last_sign = sign;', '                self.last_sign = sign;', 1),
+ ('C08', 'src/symbol_sync.rs', '                self.last_sym_boundary_pos = self.stream_pos;\n                self.last_sign = sign;', '                self.last_sign = sign;', 2),   # same
  ('C12', 'src/fft_filter.rs', 'Tag::new(t.pos() + base, t.key(), t.val().clone())', 'Tag::new(t.pos(), t.key(), t.val().clone())', 1),
- ('C08', 'src/fft_filter.rs', 'self.tail[i] = self.buf[self.nsamples + i];', 'self.tail[i] = self.buf[i];', 1),
+ ('C08', 'src/fft_filter.rs', 'self.tail[i] = self.buf[self.nsamples + i];', 'self.tail[i] = self.buf[i];', 2),   # wrong overlap-add, but the same for every chunking: undecided
  ('C09', 'src/au.rs', 'return Ok(BlockRet::WaitForStream(&self.dst, ss));', 'return Ok(BlockRet::WaitForStream(&self.dst, 1));', 1),
  ('C14', 'src/au.rs', 'o.slice()[j * ss..(j + 1) * ss].clone_from_slice(&val.to_be_bytes());', 'o.slice()[j * ss..(j + 1) * ss].clone_from_slice(&val.to_le_bytes());', 1),
  ('C16', 'src/sigmf.rs', '            if self.range.1 == 0 || !self.repeat.again() {', '            if self.range.1 == 0 || self.repeat.again() {', 1),
